@@ -49,6 +49,7 @@ class Run:
         self.started = []
         self.ndeliv = 0
         self.dstack = []
+        self.emit_t = []           # [eid, ticks] of emits made inside a mix (the clock can move inside the step)
         self.failacks = []         # delivery indices whose consumer future was failed
         self.reacts = []           # [eid, value, ticks] of emits made by the consumer inside a hand-over
         self.mixacks = []          # per ack: global index of the delivery whose future was resolved (-1: none)
@@ -201,6 +202,7 @@ class Run:
             self.nemit += 1
 
             def go():
+                self.emit_t.append([eid, self.loop.ticks()])
                 try:
                     fut = self.sources[src].emit(val_from_json(vj), metadata=md if md else None)
                 except Exception:
@@ -214,6 +216,12 @@ class Run:
                     except Exception:
                         self.failed.append(eid)
                 self.loop.create_task(waiter())
+            return go
+        if kind == "block":
+            # the current loop callback takes act[1] ticks of (virtual) time: timers that become due meanwhile have
+            # NOT run when the following sub-actions of the same callback happen
+            def go():
+                self.loop._vt += act[1] / TICKS_PER_S
             return go
         if kind == "ack":
             def go():
@@ -396,7 +404,8 @@ class Run:
         o = {"now": self.loop.ticks(), "deliv": self.deliv, "done": sorted(self.done), "failed": sorted(self.failed),
              "counts": [self.counters[i].count if i in self.counters else 0 for i in range(nrc)],
              "fired": list(self.fired), "nout": len(self.outstanding), "ntasks": len(self.tasks),
-             "started": list(self.started), "mixacks": self.mixacks, "mixtasks": self.mixtasks, "reacts": self.reacts, "failacks": self.failacks}
+             "started": list(self.started), "mixacks": self.mixacks, "mixtasks": self.mixtasks, "reacts": self.reacts, "failacks": self.failacks, "emit_t": self.emit_t}
+        self.emit_t = []
         self.failacks = []
         self.reacts = []
         self.mixacks = []
